@@ -51,3 +51,11 @@ claim("C17", "Lean 4 proofs of range invariant, contradiction characterisation a
       "sentinel; all eight rows characterised). Tied to /repo by an exhaustive grid of (alpha, L, U) containing every region boundary and its "
       "neighbours through Proposition.add_data/state/is_contradiction/has_contradiction, and a range check of every dump of random programs.",
       NOTE_COMMON + " The code has eight states (Fact x4, _Fact x4); 'nine documented states' is read as the documented state set.", "DESIGN.md §6 C17")
+claim("C03", "Lean 4 proof that upward+downward on one connective yields exactly the feasible interval hull (explicit convex witnesses) + exact differential correspondence",
+      "Theorems C03_{and,or,implies}_operator_hull / _operand_hull (every feasible value is inside the result AND both end points are attained by "
+      "feasible assignments: neither looser nor tighter), C03_*_infeasible / _infeasible_reported (no feasible assignment => a contradiction at the "
+      "connective or an operand), C03_engine_* / C03_engine_arrest_* (the model's stepUp;stepDown on a connective over distinct operands computes "
+      "exactly that, and arrests in the infeasible case). All arities, weights >= 0 incl. 0, all biases, both variants, alpha = 1, any ordered field. "
+      "Tied to /repo: upward();downward() on single connectives compared in exact arithmetic with the closed-form hull and with the model; thorough "
+      "tier enumerates the n=2 quarter-grid sub-space exhaustively.",
+      NOTE_COMMON, "DESIGN.md §6 C03")
